@@ -435,14 +435,21 @@ class TopCollector(ScoredCollector):
         self.limit = limit
         self.usequality = usequality
         self.total = 0
+        # Whether block quality optimizations were enabled for any segment
+        self.used_quality = False
 
     def _use_block_quality(self):
-        return (self.usequality
-                and not self.top_searcher.weighting.use_final
-                and self.matcher.supports_block_quality())
+        use = (self.usequality
+               and not self.top_searcher.weighting.use_final
+               and self.matcher.supports_block_quality())
+        if use:
+            self.used_quality = True
+        return use
 
     def computes_count(self):
-        return not self._use_block_quality()
+        # If postings may have been skipped in any segment (not just the one
+        # the current matcher belongs to), the running total is not the count
+        return not (self.used_quality or self._use_block_quality())
 
     def all_ids(self):
         # Since this collector can skip blocks, it doesn't track the total
